@@ -107,6 +107,11 @@ def check(run):
         m_part(run, scr, nat)
     except mir.Unsupported as e:
         run.inconclusive.append("encoder: %s" % e)
+    # validation of the encoding's verdict against the real parser on the concrete cases (both must agree)
+    bad = judge(nat)
+    run.traces_validated += len(CASES)
+    if bad and not run.violations:
+        run.inconclusive.append("the solver found no violation but the real parser disagrees with the documented behaviour: %s" % bad[:2])
     run.not_covered += [
         "every other diagnostic of the catalogue (parser-stage checks, references, notes, timers, modes, front matter): "
         "they sit behind the lexer/parser or build their messages with format!, out of reach of both engines (DESIGN 6)",
